@@ -47,6 +47,20 @@ static int
 env_fail_now(void) {
   env_alloc_calls++;
   if (!env_alloc_fail_enabled) return 0;
+#ifdef ENV_FAIL_SYM
+  /* "fail exactly the k-th allocation" for a SYMBOLIC k <= ENV_FAIL_SYM chosen once per run (k past the last allocation = no failure) */
+  {
+    static uint8_t env_fail_k;
+    static int env_fail_k_set;
+    if (!env_fail_k_set) {
+      VERIF_IN_SET(uint8_t, env_fail_k);
+      __CPROVER_assume(env_fail_k <= (ENV_FAIL_SYM));
+      env_fail_k_set = 1;
+    }
+    if (env_alloc_failable++ == env_fail_k) { env_alloc_failed++; return 1; }
+    return 0;
+  }
+#endif
 #ifdef ENV_FAIL_AT
   /* "fail exactly the k-th allocation", k concrete per job: the message layout stays concrete */
   if (env_alloc_failable++ == (ENV_FAIL_AT)) { env_alloc_failed++; return 1; }
